@@ -3,7 +3,7 @@
    lookahead, greedy closures returning closed lists, rule calls contributing one element. *)
 From Coq Require Import List NArith ZArith Arith Bool Lia.
 From TatsuV Require Import Base.PyStr Engine.Value Engine.Syntax Engine.Input Engine.Engine Engine.Calls
-     Engine.EngineRel Engine.EngineMono.
+     Engine.EngineRel Engine.EngineMono Engine.InputProof.
 Import ListNotations.
 
 Section Laws.
@@ -255,6 +255,35 @@ Lemma pcall_unfold k (ev : @ev_t unit) r f u :
     end
   end.
 Proof. reflexivity. Qed.
+
+(* ---- whitespace at rule entry (C09): a lower-case rule skips it, so its amount does not matter; an upper-case rule
+   starts its body exactly where the caller stands ---- *)
+Theorem peval_call_skips_ws n r rl f q :
+  get_rule rules r = Some rl -> r_tokn rl = false -> next_token text re_at ic (pos f) = Some q ->
+  peval' (S n) (Call r) f = peval' (S n) (Call r) (goto f q).
+Proof.
+  intros G T Q. unfold peval. rewrite !geval_S, !pcall_unfold, G, T. cbn [pos goto].
+  rewrite Q, (next_token_idempotent text re_at ic _ _ Q). reflexivity.
+Qed.
+
+Theorem peval_token_rule_never_skips n r rl f :
+  get_rule rules r = Some rl -> r_tokn rl = true ->
+  peval' (S n) (Call r) f =
+    match pev n (r_exp rl) (push (newf (pos f))) tt with
+    | (Ok _ fb, _) =>
+      match fst (post_body upper ic ec act lineat rl r (pos f) fb) with
+      | ROk node np => Ok node (append (goto f np) node)
+      | RFail => Fail (cutseen f)
+      | RFatal x => Fatal x
+      end
+    | (Fail _, _) => Fail (cutseen f)
+    | (Fatal x, _) => Fatal x
+    end.
+Proof.
+  intros G T. unfold peval. rewrite geval_S, pcall_unfold, G, T.
+  destruct (pev n (r_exp rl) (push (newf (pos f))) tt) as [[vb fb|c|x] []]; [|reflexivity|reflexivity].
+  destruct (fst (post_body upper ic ec act lineat rl r (pos f) fb)); reflexivity.
+Qed.
 
 (* ---- a rule call contributes exactly one element to its caller ---- *)
 Theorem peval_call_one_element n r f v f' :
